@@ -93,21 +93,39 @@ def extract(ctx):
     g.string('infoFmtV2', sc[0]['fmt'])
     g.string('infoFmtV1', sc[1]['fmt'])
     g.string('identFmtV2', sc[2]['fmt'])
-    g.strings('cbUnpackArgs', [c['args'][0] if c['args'] else '' for c in sc])
+    # slices are normalised to numbers (payload[:6] == payload[0:6]); the model takes/drops these counts
+    takes = [_slice_bounds(c['args'][0] if c['args'] else '', 'payload') for c in sc]
+    X.expect(all(t is not None and t[0] == 0 and t[1] is not None for t in takes), 'TocFetcher._new_packet_cb: unpack arguments are not payload[:n]')
+    g.nat('infoTakeV2', takes[0][1])
+    g.nat('infoTakeV1', takes[1][1])
+    g.nat('identTakeV2', takes[2][1])
     g.strings('cbCompares', X.compares(cb))
     am = _assign_map(cb)
     for k in ('chan', 'payload', 'ident'):
         X.expect(k in am, 'TocFetcher._new_packet_cb: assignment to %s missing' % k)
     g.string('cbChan', ast.unparse(am['chan']))
-    g.string('cbPayload', ast.unparse(am['payload']))
+    pl = _slice_bounds(ast.unparse(am['payload']), 'packet.data')
+    X.expect(pl is not None and pl[1] is None, 'TocFetcher._new_packet_cb: payload is not packet.data[n:]')
+    g.nat('payloadDrop', pl[0])
     idents = sorted((n.lineno, ast.unparse(n.value)) for n in ast.walk(cb) if isinstance(n, ast.Assign)
                     and ast.unparse(n.targets[0]) == 'ident')
-    g.strings('cbIdentExprs', [s for _, s in idents])
+    idn = sorted((n.lineno, n.value) for n in ast.walk(cb) if isinstance(n, ast.Assign) and ast.unparse(n.targets[0]) == 'ident')
+    X.expect(len(idn) == 2, 'TocFetcher._new_packet_cb: expected two assignments to ident')
+    shapes = []
+    for _, v in idn:
+        if isinstance(v, ast.Subscript) and isinstance(v.value, ast.Call) and ast.unparse(v.value.func) == 'struct.unpack':
+            shapes.append('struct.unpack(...)[%s]' % ast.unparse(v.slice))
+        else:
+            shapes.append(ast.unparse(v))
+    g.strings('cbIdentExprs', shapes)
     adds = sorted((n.lineno, n.col_offset, [ast.unparse(a) for a in n.args]) for n in ast.walk(cb)
                   if isinstance(n, ast.Call) and ast.unparse(n.func) == 'self.element_class')
     X.expect(len(adds) == 2, 'TocFetcher._new_packet_cb: expected two element_class(...) calls')
-    g.strings('cbElemArgsV2', adds[0][2])
-    g.strings('cbElemArgsV1', adds[1][2])
+    for (ln, col, args), nm in zip(adds, ('elemDropV2', 'elemDropV1')):
+        X.expect(len(args) == 2 and args[0] == 'ident', 'element_class(...) arguments changed: %r' % (args,))
+        sl = _slice_bounds(args[1], 'payload')
+        X.expect(sl is not None and sl[1] is None, 'element_class(...) data argument is not payload[n:]')
+        g.nat(nm, sl[0])
     aug = [ast.unparse(n) for n in ast.walk(cb) if isinstance(n, ast.AugAssign)]
     g.strings('cbAugAssigns', aug)
     # _request_toc_element: data tuples and the index byte expressions
@@ -236,6 +254,25 @@ def extract(ctx):
     g.strings('platVersionExprs', ver)
     g.raw('def platReportsOnce : Bool := ' + ('true' if _reports_once(ps) else 'false'))
     return {'C03.lean': g.render()}
+
+
+def _slice_bounds(src, base):
+    """'base[a:b]' -> (a or 0, b or None) for integer literals; None if `src` is not such a slice"""
+    try:
+        e = ast.parse(src, mode='eval').body
+    except SyntaxError:
+        return None
+    if not (isinstance(e, ast.Subscript) and ast.unparse(e.value) == base and isinstance(e.slice, ast.Slice) and e.slice.step is None):
+        return None
+    out = []
+    for b in (e.slice.lower, e.slice.upper):
+        if b is None:
+            out.append(None)
+        elif isinstance(b, ast.Constant) and isinstance(b.value, int) and b.value >= 0:
+            out.append(b.value)
+        else:
+            return None
+    return (out[0] or 0, out[1])
 
 
 def _reports_once(cls):
@@ -464,7 +501,7 @@ def gen_name(rng, n, rich=False):
     return bytes(rng.choice(IDENT_CHARS) for _ in range(n))
 
 
-def gen_table(rng, kind, n, v2, rich=False):
+def gen_table(rng, kind, n, v2, rich=False, p_ext=0.4):
     """n entries with pairwise distinct (group, name); lengths up to the packet limit; all type codes"""
     from harness.sim import crazyflie_device as sim
     budget = sim.name_budget(v2)
@@ -490,7 +527,7 @@ def gen_table(rng, kind, n, v2, rich=False):
             items.append(sim.LogVar(_lat(g), _lat(nm), sim.LOG_TYPE_NAME[code], value=i % 100))
         else:
             code = PARAM_CODES[i % 11] if i < 11 else rng.choice(PARAM_CODES)
-            ext = rng.random() < 0.4
+            ext = rng.random() < p_ext
             items.append(sim.ParamVar(_lat(g), _lat(nm), sim.PARAM_TYPE_NAME[code], value=i % 100, readonly=rng.random() < 0.3,
                                       extended=ext, persistent=ext and rng.random() < 0.6))
             if rich and rng.random() < 0.3:     # free bits of the type byte (0x20, 0x80)
@@ -501,7 +538,8 @@ def gen_table(rng, kind, n, v2, rich=False):
 def make_dev(rng, nlog, npar, v2, rich=False, **kw):
     from harness.sim import crazyflie_device as sim
     return sim.CrazyflieDevice(protocol_version=rng.choice([4, 5, 10]) if v2 else rng.choice([0, 1, 3]),
-                               log_toc=gen_table(rng, 'log', nlog, v2, rich), param_toc=gen_table(rng, 'param', npar, v2, rich),
+                               log_toc=gen_table(rng, 'log', nlog, v2, rich),
+                               param_toc=gen_table(rng, 'param', npar, v2, rich, p_ext=0.4 if npar < 5000 else 0.02),
                                mems=[sim.Mem(0, data=bytes(16))], **kw)
 
 
@@ -986,7 +1024,12 @@ def property_holds(s, dev):
         return ('param-table', 'parameter TOC (incl. persistence markers) differs from the device table when connected is signalled',
                 {'got': len(t['param'] or []), 'want': len(dev.param_toc)})
     for toc, items in ((s.cf.log.toc, dev.log_toc), (s.cf.param.toc, dev.param_toc)):
-        for i, v in enumerate(items):
+        n = len(items)
+        # get_element_by_id is linear: on big tables check the boundaries and an evenly spread sample
+        idx = range(n) if n <= 600 else sorted(set(list(range(0, 300)) + list(range(n - 300, n)) + list(range(0, n, max(1, n // 400))) +
+                                                   [i for i in (254, 255, 256, 257, 4095, 4096, 4097, 32767, 32768, 65534) if i < n]))
+        for i in idx:
+            v = items[i]
             e = toc.get_element(v.group, v.name)
             if e is None or toc.get_element_by_id(i) is not e:
                 return ('lookup', 'lookup by (group, name) and by index disagree', {'index': i})
@@ -1001,6 +1044,7 @@ def search(ctx):
     import random
     rng = ctx.rng
     R = sim.Rule
+    repaired = _reports_once(X.find(X.parse('cflib/crazyflie/platformservice.py'), 'PlatformService'))
     # (1) corpus / fixed witnesses first: a duplicated protocol-version reply, a duplicated link-source reply
     fixed = [('dup-version-reply', [R('dup', 2, port=13, chan=1)]), ('dup-link-source-reply', [R('dup', 2, port=15, chan=1)])]
     for name, rules in fixed:
@@ -1015,29 +1059,61 @@ def search(ctx):
                 ctx.witness('setup-restarted-by-duplicate-platform-reply', bad[1] + ' after a duplicated protocol-version / link-source reply',
                             {'policy': name, 'v2': v2, 'nlog': 3, 'nparam': 2, 'seed': 7}, detail=bad[2], key_detail=bad[0])
             s.close()
+    # (1b) cache-present sanity path (cache semantics proper are C11): a table cached by an earlier connection is
+    # reused only for the same CRC; a foreign table whose file name merely ends with the same hex digits is not
+    import os
+    import shutil
+    import tempfile
+    for v2 in (True, False):
+        tmp = tempfile.mkdtemp(prefix='c03cache-')
+        try:
+            rr = random.Random(11)
+            other = make_dev(rr, 4, 3, v2, log_crc=0xDEADBEEF, param_crc=0x12345678)
+            s = sim.SyncSession(other, rw_cache=tmp)
+            s.connect('connected', max_steps=20000)
+            s.close()
+            names = sorted(os.listdir(tmp))
+            for crcs, label in (((0x0000BEEF, 0x00345678), 'suffix-collision'), ((0xDEADBEEF, 0x12345678), 'same-crc-same-table')):
+                dev = make_dev(random.Random(11 if label.startswith('same') else 12), 4 if label.startswith('same') else 5, 3, v2,
+                               log_crc=crcs[0], param_crc=crcs[1])
+                s = sim.SyncSession(dev, rw_cache=tmp)
+                ok = s.connect('connected', max_steps=20000)
+                bad = property_holds(s, dev) if ok else ('no-connect', 'connected never signalled', {'events': s.events})
+                ctx.count('search:cache-' + label)
+                if bad:
+                    ctx.witness('cache-' + label, bad[1] + ' with a TOC cache present (%s)' % label,
+                                {'v2': v2, 'cache_files_before': names, 'log_crc': '%08X' % crcs[0], 'param_crc': '%08X' % crcs[1]}, detail=bad[2])
+                nreq = len([1 for (p, c, d) in s.link.sent if p in (2, 5) and c == 0])
+                if label.startswith('same') and ok and nreq != 2:
+                    ctx.note('cache hit expected for an unchanged device but %d TOC requests were sent' % nreq)
+                s.close()
+        finally:
+            shutil.rmtree(tmp, ignore_errors=True)
     # (2) generated tables x adversarial networks on every port (no loss on the ports that have no retry)
     sizes = [(0, 0), (1, 0), (0, 1), (2, 2), (255, 3), (3, 255), (256, 2), (2, 256), (257, 257), (258, 1), (300, 300)]
     trials = [(v2, nl, npar) for v2 in (True, False) for (nl, npar) in sizes if v2 or max(nl, npar) <= 255]
     trials += [(rng.random() < 0.5, rng.randrange(0, 40), rng.randrange(0, 40)) for _ in range(60 if ctx.tier == 'quick' else 600)]
+    # the high index byte: tables beyond 4096 entries (quick) and the largest addressable tables (thorough)
+    trials += [(True, 4099, 1), (True, 1, 4100)] if ctx.tier == 'quick' else [(True, 65535, 2), (True, 2, 65535), (True, 4099, 4100)]
     for (v2, nl, npar) in trials:
         dev = make_dev(rng, nl, npar, v2, rich=rng.random() < 0.4)
         nr = rng.random() < 0.6
         seed = rng.getrandbits(32)
-        mode = rng.choice(['all-ports', 'all-ports', 'toc-ports-drop'])
+        mode = rng.choice(['all-ports', 'all-ports', 'toc-ports-drop']) if max(nl, npar) < 1000 else 'all-ports'
         if mode == 'all-ports':
             pol = sim.RandomPolicy(random.Random(seed), p_dup=0.25, p_delay=0.2, p_drop=0.0, p_stale=0.3)
         else:
             nr = True
             pol = sim.RandomPolicy(random.Random(seed), p_dup=0.2, p_delay=0.15, p_drop=0.1, p_stale=0.25, ports=[2, 5])
         s = sim.SyncSession(dev, needs_resending=nr, policy=pol)
-        ok = s.connect('connected', max_steps=200000)
+        ok = s.connect('connected', max_steps=200000 + 40 * (nl + npar))
         ctx.count('search:' + mode)
         bad = property_holds(s, dev) if ok else ('no-connect', 'connected never signalled', {'events': s.events})
         if bad:
             # classify: was the setup sequence restarted by a further copy of a platform reply?
             nver = len([1 for (p, c, d) in s.link.delivered if (p, c) == (13, 1) and d[:1] == b'\x00']) + \
                 len([1 for (p, c, d) in s.link.delivered if (p, c) == (15, 1) and not d.startswith(b'Bitcraze Crazyflie')])
-            key = 'setup-restarted-by-duplicate-platform-reply' if nver > 1 else bad[0]
+            key = 'setup-restarted-by-duplicate-platform-reply' if nver > 1 and not repaired else bad[0]
             ctx.witness(key, bad[1], {'v2': v2, 'nlog': nl, 'nparam': npar, 'needs_resending': nr, 'mode': mode, 'policy_seed': seed,
                                       'log_names': [(v.group, v.name, v.ctype) for v in dev.log_toc[:20]],
                                       'param_names': [(v.group, v.name, v.ctype, v.type_byte) for v in dev.param_toc[:20]]},
